@@ -10,12 +10,21 @@ use ironplc_dsl::core::Located;
 use ironplc_dsl::diagnostic::Diagnostic;
 use ironplc_dsl::fold::Fold;
 use ironplc_dsl::textual::*;
+use ironplc_dsl::visitor::Visitor;
 use ironplc_dsl::{common::*, core::Id};
-use std::collections::HashMap;
+use std::collections::{HashMap, HashSet};
 
 pub fn apply(lib: Library) -> Result<Library, Vec<Diagnostic>> {
+    // Find the values that the enumerations define. A name that is not a
+    // variable can be one of these.
+    let mut finder = EnumeratedValueFinder {
+        values: HashSet::new(),
+    };
+    finder.walk(&lib).map_err(|e| vec![e])?;
+
     // Resolve the types. This is a single fold of the library
     let mut resolver = DeclarationResolver {
+        enumerated_values: finder.values,
         names_to_types: HashMap::new(),
         current_type: VariableType::None,
         diagnostics: Vec::new(),
@@ -43,7 +52,39 @@ enum VariableType {
     LateResolvedType,
 }
 
+/// Finds the values of all enumerations (declared as a type or inline in
+/// a variable declaration).
+struct EnumeratedValueFinder {
+    values: HashSet<Id>,
+}
+
+impl Visitor<Diagnostic> for EnumeratedValueFinder {
+    type Value = ();
+
+    fn visit_enumerated_specification_values(
+        &mut self,
+        node: &EnumeratedSpecificationValues,
+    ) -> Result<Self::Value, Diagnostic> {
+        for item in node.values.iter() {
+            self.values.insert(item.value.clone());
+        }
+        Ok(())
+    }
+
+    fn visit_enumerated_values_initializer(
+        &mut self,
+        node: &EnumeratedValuesInitializer,
+    ) -> Result<Self::Value, Diagnostic> {
+        for item in node.values.iter() {
+            self.values.insert(item.value.clone());
+        }
+        Ok(())
+    }
+}
+
 struct DeclarationResolver {
+    // The values of all enumerations
+    enumerated_values: HashSet<Id>,
     // Defines the desired type for each identifier
     names_to_types: HashMap<Id, VariableType>,
     current_type: VariableType,
@@ -78,6 +119,17 @@ impl DeclarationResolver {
 
     fn find_type(&self, name: &Id) -> &VariableType {
         self.names_to_types.get(name).unwrap_or(&VariableType::None)
+    }
+
+    /// Returns if the name is a variable in the current scope.
+    fn is_variable(&self, name: &Id) -> bool {
+        self.names_to_types.contains_key(name)
+    }
+
+    /// Returns if the name is a value of an enumeration and not a variable
+    /// in the current scope (a variable hides the enumeration value).
+    fn is_enumerated_value(&self, name: &Id) -> bool {
+        !self.is_variable(name) && self.enumerated_values.contains(name)
     }
 }
 
@@ -173,6 +225,14 @@ impl Fold<Diagnostic> for DeclarationResolver {
             ExprKind::Function(node) => {
                 node.recurse_fold(self).map(|v| Ok(ExprKind::Function(v)))?
             }
+            // A name that is an enumeration value (and not a variable) is that
+            // value wherever it is, for example, in a comparison or as an argument.
+            ExprKind::LateBound(node) if self.is_enumerated_value(&node.name) => {
+                Ok(ExprKind::EnumeratedValue(EnumeratedValue {
+                    type_name: None,
+                    value: node.name,
+                }))
+            }
             ExprKind::LateBound(node) => match self.current_type {
                 VariableType::None => {
                     // TODO this is likely not right in all cases
@@ -185,6 +245,12 @@ impl Fold<Diagnostic> for DeclarationResolver {
                 ))),
                 VariableType::String => Err(Diagnostic::todo(file!(), line!())),
                 VariableType::EnumeratedValues => Err(Diagnostic::todo(file!(), line!())),
+                VariableType::EnumeratedType if self.is_variable(&node.name) => {
+                    // Assigns from another variable
+                    Ok(ExprKind::Variable(Variable::Symbolic(
+                        SymbolicVariableKind::Named(NamedVariable { name: node.name }),
+                    )))
+                }
                 VariableType::EnumeratedType => Ok(ExprKind::EnumeratedValue(EnumeratedValue {
                     type_name: None,
                     value: node.name,
